@@ -67,8 +67,13 @@ package rest
 //@   ensures [no-operation] rpcN == old(rpcN)
 //@   modifies httpResponses, httpLastStatus, httpDocs, heap(types.PinOptions), heap(types.PinPath), optionRefused
 
+// assumed (go-libp2p-core/peer): a peer ID that decodes without error is not the empty ID
+//@ extern peer.Decode(s)
+//@   ensures err == nil ==> res != ""
 //@ func (api *API) parsePidOrError
 //@   property C11
+//@   ensures [empty-iff-answered] (res == "") <==> (httpResponses == old(httpResponses) + 1)
+//@   ensures [refusal-is-one-400-document] res == "" ==> httpDocs == old(httpDocs) + 1 && httpLastStatus == 400
 //@   ensures [answered-only-when-empty] httpResponses != old(httpResponses) ==> res == "" && httpResponses == old(httpResponses) + 1 && httpLastStatus == 400
 //@   ensures [non-empty-silent] res != "" ==> httpResponses == old(httpResponses) && httpDocs == old(httpDocs)
 //@   ensures [no-operation] rpcN == old(rpcN)
@@ -105,6 +110,110 @@ package rest
 //@   ensures rpcN == old(rpcN) ==> httpLastStatus >= 400 && httpLastStatus < 500
 //@   modifies httpResponses, httpLastStatus, httpDocs, rpcN, rpcLastSvc, rpcLastMethod, heap(types.PinOptions), heap(types.Pin), heap(types.PinPath), optionRefused
 
+
+// ---- the remaining routes: exactly one response; the route's own cluster operation, with the argument the request
+// carried, is the only one performed; a request refused as malformed performs none ----
+//@ func pinInfosToGlobal
+//@   opts trusted
+//@   modifies nothing
+//@ func repoGCToGlobal
+//@   opts trusted
+//@   modifies nothing
+
+//@ func (api *API) idHandler
+//@   property C11
+//@   ensures [one-response-one-operation] httpResponses == old(httpResponses) + 1 && httpDocs <= old(httpDocs) + 1 && rpcN == old(rpcN) + 1 && rpcLastSvc == "Cluster" && rpcLastMethod == "ID"
+//@   modifies *
+//@ func (api *API) versionHandler
+//@   property C11
+//@   ensures [one-response-one-operation] httpResponses == old(httpResponses) + 1 && httpDocs <= old(httpDocs) + 1 && rpcN == old(rpcN) + 1 && rpcLastSvc == "Cluster" && rpcLastMethod == "Version"
+//@   modifies *
+//@ func (api *API) graphHandler
+//@   property C11
+//@   ensures [one-response-one-operation] httpResponses == old(httpResponses) + 1 && httpDocs <= old(httpDocs) + 1 && rpcN == old(rpcN) + 1 && rpcLastSvc == "Cluster" && rpcLastMethod == "ConnectGraph"
+//@   modifies *
+//@ func (api *API) metricNamesHandler
+//@   property C11
+//@   ensures [one-response-one-operation] httpResponses == old(httpResponses) + 1 && httpDocs <= old(httpDocs) + 1 && rpcN == old(rpcN) + 1 && rpcLastSvc == "PeerMonitor" && rpcLastMethod == "MetricNames"
+//@   modifies *
+//@ func (api *API) alertsHandler
+//@   property C11
+//@   ensures [one-response-one-operation] httpResponses == old(httpResponses) + 1 && httpDocs <= old(httpDocs) + 1 && rpcN == old(rpcN) + 1 && rpcLastSvc == "Cluster" && rpcLastMethod == "Alerts"
+//@   modifies *
+//@ func (api *API) peerListHandler
+//@   property C11
+//@   ensures [one-response-one-operation] httpResponses == old(httpResponses) + 1 && httpDocs <= old(httpDocs) + 1 && rpcN == old(rpcN) + 1 && rpcLastSvc == "Cluster" && rpcLastMethod == "Peers"
+//@   modifies *
+//@ func (api *API) metricsHandler
+//@   property C11
+//@   ensures [one-response-one-operation] httpResponses == old(httpResponses) + 1 && httpDocs <= old(httpDocs) + 1 && rpcN == old(rpcN) + 1 && rpcLastSvc == "PeerMonitor" && rpcLastMethod == "LatestMetrics"
+//@   at_call rpc.Client.CallContext assert [argument-as-requested] args == any(name) && name == vars["name"]
+//@   modifies *
+//@ func (api *API) peerRemoveHandler
+//@   property C11
+//@   ensures [one-response] httpResponses == old(httpResponses) + 1 && httpDocs <= old(httpDocs) + 1
+//@   ensures [the-routes-operation-or-none] rpcN == old(rpcN) || (rpcN == old(rpcN) + 1 && rpcLastSvc == "Cluster" && rpcLastMethod == "PeerRemove")
+//@   ensures [refused-is-4xx] rpcN == old(rpcN) ==> httpLastStatus >= 400 && httpLastStatus < 500
+//@   at_call rpc.Client.CallContext assert [argument-as-requested] args == any(p) && p != ""
+//@   modifies *
+//@ func (api *API) allocationHandler
+//@   property C11
+//@   ensures [one-response] httpResponses == old(httpResponses) + 1 && httpDocs <= old(httpDocs) + 1
+//@   ensures [the-routes-operation-or-none] rpcN == old(rpcN) || (rpcN == old(rpcN) + 1 && rpcLastSvc == "Cluster" && rpcLastMethod == "PinGet")
+//@   ensures [refused-is-4xx] rpcN == old(rpcN) ==> httpLastStatus >= 400 && httpLastStatus < 500
+//@   at_call rpc.Client.CallContext assert [argument-as-requested] args == any(pin.Cid)
+//@   ensures [lookup-failure-is-404] rpcN == old(rpcN) + 1 && err != nil ==> httpLastStatus == 404
+//@   modifies *
+//@ func (api *API) statusHandler
+//@   property C11
+//@   ensures [one-response] httpResponses == old(httpResponses) + 1 && httpDocs <= old(httpDocs) + 1
+//@   ensures [the-routes-operation-or-none] rpcN == old(rpcN) || (rpcN == old(rpcN) + 1 && rpcLastSvc == "Cluster" && rpcLastMethod == ite(local == "true", "StatusLocal", "Status"))
+//@   ensures [refused-is-4xx] rpcN == old(rpcN) ==> httpLastStatus >= 400 && httpLastStatus < 500
+//@   at_call rpc.Client.CallContext assert [argument-as-requested] args == any(pin.Cid)
+//@   modifies *
+//@ func (api *API) recoverHandler
+//@   property C11
+//@   ensures [one-response] httpResponses == old(httpResponses) + 1 && httpDocs <= old(httpDocs) + 1
+//@   ensures [the-routes-operation-or-none] rpcN == old(rpcN) || (rpcN == old(rpcN) + 1 && rpcLastSvc == "Cluster" && rpcLastMethod == ite(local == "true", "RecoverLocal", "Recover"))
+//@   ensures [refused-is-4xx] rpcN == old(rpcN) ==> httpLastStatus >= 400 && httpLastStatus < 500
+//@   at_call rpc.Client.CallContext assert [argument-as-requested] args == any(pin.Cid)
+//@   modifies *
+//@ func (api *API) recoverAllHandler
+//@   property C11
+//@   ensures [one-response-one-operation] httpResponses == old(httpResponses) + 1 && httpDocs <= old(httpDocs) + 1 && rpcN == old(rpcN) + 1 && rpcLastSvc == "Cluster" && rpcLastMethod == ite(local == "true", "RecoverAllLocal", "RecoverAll")
+//@   modifies *
+//@ func (api *API) repoGCHandler
+//@   property C11
+//@   ensures [one-response-one-operation] httpResponses == old(httpResponses) + 1 && httpDocs <= old(httpDocs) + 1 && rpcN == old(rpcN) + 1 && rpcLastSvc == "Cluster" && rpcLastMethod == ite(local == "true", "RepoGCLocal", "RepoGC")
+//@   modifies *
+//@ func (api *API) statusAllHandler
+//@   property C11
+//@   ensures [one-response] httpResponses == old(httpResponses) + 1 && httpDocs <= old(httpDocs) + 1
+//@   ensures [the-routes-operation-or-none] rpcN == old(rpcN) || (rpcN == old(rpcN) + 1 && rpcLastSvc == "Cluster" && rpcLastMethod == ite(local == "true", "StatusAllLocal", "StatusAll"))
+//@   ensures [refused-is-400] rpcN == old(rpcN) ==> httpLastStatus == 400
+//@   ensures [unknown-filter-is-refused] filter == types.TrackerStatusUndefined && filterStr != "" ==> rpcN == old(rpcN)
+//@   at_call rpc.Client.CallContext assert [filter-as-requested] args == any(filter) && filterStr == qget(queryValues, "filter")
+//@   modifies *
+//@ func (api *API) peerAddHandler
+//@   property C11
+//@   ensures [one-response] httpResponses == old(httpResponses) + 1 && httpDocs <= old(httpDocs) + 1
+//@   ensures [the-routes-operation-or-none] rpcN == old(rpcN) || (rpcN == old(rpcN) + 1 && rpcLastSvc == "Cluster" && rpcLastMethod == "PeerAdd")
+//@   ensures [refused-is-400] rpcN == old(rpcN) ==> httpLastStatus == 400
+//@   at_call rpc.Client.CallContext assert [argument-as-requested] args == any(pid)
+//@   modifies *
+//@ func (api *API) allocationsHandler
+//@   property C11
+//@   ensures [one-response] httpResponses == old(httpResponses) + 1 && httpDocs <= old(httpDocs) + 1
+//@   ensures [the-routes-operation-or-none] rpcN == old(rpcN) || (rpcN == old(rpcN) + 1 && rpcLastSvc == "Cluster" && rpcLastMethod == "Pins")
+//@   ensures [refused-is-400] rpcN == old(rpcN) ==> httpLastStatus == 400 && filter == types.BadType
+//@   ensures [only-admitted-types-listed] rpcN == old(rpcN) + 1 && filter != types.AllType ==> forall j int :: 0 <= j && j < len(outPins) ==> (filter & outPins[j].Type) > 0
+//@   loop 1 (range strings.Split(filterStr, ","))
+//@     invariant httpResponses == old(httpResponses) && rpcN == old(rpcN) && httpDocs == old(httpDocs)
+//@   loop 2 (range pins)
+//@     invariant httpResponses == old(httpResponses) && httpDocs == old(httpDocs) && rpcN == old(rpcN) + 1 && rpcLastSvc == "Cluster" && rpcLastMethod == "Pins" && filter != types.AllType && filter != types.BadType
+//@     invariant forall j int :: 0 <= j && j < len(outPins) ==> (filter & outPins[j].Type) > 0
+//@   modifies *
+
 //@ func (api *API) notFoundHandler
 //@   property C11
 //@   ensures httpResponses == old(httpResponses) + 1 && httpLastStatus == 404 && rpcN == old(rpcN) && httpDocs == old(httpDocs) + 1
@@ -121,6 +230,27 @@ package rest
 //@     invariant authorized <==> (exists u string :: in(u, seen1) && u == username && credentials[u] == password)
 //@     invariant served == old(served) && rpcN == old(rpcN) && httpResponses == old(httpResponses)
 //@   modifies served, httpResponses, httpLastStatus, httpDocs, rpcN, rpcLastSvc, rpcLastMethod
+
+// the handler chain: whatever the HTTP server is given to serve has the basic-auth layer between it and the router,
+// also when a tracing layer is put on top
+//@ ghost var lastAuthHandler http.Handler
+//@ ghost var lastAuthInner http.Handler
+//@ ghost var lastCorsHandler http.Handler
+//@ func basicAuthHandler
+//@   property C11
+//@   records lastAuthHandler = res
+//@   records lastAuthInner = h
+//@   ensures credentials == nil ==> same(res, h)
+//@   modifies nothing
+
+//@ extern handlers.LoggingHandler(out, h)
+//@   modifies nothing
+
+//@ func NewAPIWithHost
+//@   property C11
+//@   at_call handlers.LoggingHandler assert [served-behind-basic-auth] same(arg_h, lastAuthHandler) || (exists p *ochttp.Handler :: arg_h == p && same(p.Handler, lastAuthHandler))
+//@   at_call basicAuthHandler assert [configured-credentials] same(credentials, cfg.BasicAuthCredentials)
+//@   modifies *
 
 // ---- C15: the REST API section's saved form: every setting is written from the field of the same name ----
 //@ func (cfg *Config) toJSONConfig
@@ -156,6 +286,7 @@ package rest
 //@ func (api *API) Shutdown
 //@   property C18
 //@   opts own
+//@   ensures [success-means-shut-down] err == nil ==> api.shutdown
 //@   modifies *
 
 // ---- C15: "no well-formed setting is silently dropped": a TLS file setting the section carries is either recorded
